@@ -1179,6 +1179,50 @@ impl Enum08Has {
     }
 }
 
+/// the path as the condition / left operand of a logical operator inside has() and coalesce():
+/// every configuration of the path (constant ones included: the compiler may decide the
+/// operator) x {has(p ? a : b), coalesce(p ? a : b, fb), has(p && a), has(!p), has(p || a),
+/// coalesce(p && a, fb)}; a condition that fails as absent makes the operator fail as absent,
+/// any other failure is propagated, and neither branch is evaluated
+pub struct Enum08Cond {
+    pub items: Vec<(usize, PathCfg, usize)>,
+}
+
+impl Enum08Cond {
+    pub fn new() -> Enum08Cond {
+        let mut items = vec![];
+        for d in 0..=2usize {
+            for cfg in path_cfgs(d) {
+                for form in 0..6usize {
+                    items.push((d, cfg, form));
+                }
+            }
+        }
+        Enum08Cond { items }
+    }
+    pub fn case(&self, idx: u64, seed: u64) -> EnvCase {
+        let (d, cfg, form) = self.items[idx as usize];
+        let mut r = Rng::new(crate::prng::mix(seed, "c08-cond", idx));
+        let mut b = Builder::new(&mut r, 1);
+        let mask = r.below(1 << d) as u32;
+        let p = build_path(&mut b, &mut r, d, cfg, mask);
+        let a = b.cb(vec![Answer::V(V::Int(1))], vec![]);
+        let c = if r.chance(1, 2) { b.cb(vec![Answer::V(V::Int(2))], vec![]) } else { E::Lit(V::Int(2)) };
+        let fb = E::Lit(V::s("fallback"));
+        let e = match form {
+            0 => E::Has(Box::new(E::Tern(Box::new(p), Box::new(a), Box::new(c)))),
+            1 => E::Coalesce(vec![E::Tern(Box::new(p), Box::new(a), Box::new(c)), fb]),
+            2 => E::Has(Box::new(E::and(p, a))),
+            3 => E::Has(Box::new(E::Not(Box::new(p)))),
+            4 => E::Has(Box::new(E::or(p, a))),
+            _ => E::Coalesce(vec![E::and(p, a), fb]),
+        };
+        let w = r.usize(WRAPS);
+        let e = wrap(&mut b, &mut r, e, w);
+        b.finish(e)
+    }
+}
+
 /// kinds of coalesce arguments
 #[derive(Clone, Copy, Debug, PartialEq, Eq)]
 pub enum ArgKind {
